@@ -7,7 +7,7 @@ from types import CodeType
 from . import _verif
 from .mro import Order, sort_types, typeorder
 from .recode import generate_dependent_dispatch
-from .utils import MISSING, subtler_type
+from .utils import MISSING, fresh_error, subtler_type
 
 
 class TypeMap(dict):
@@ -380,7 +380,7 @@ class MultiTypeMap(dict):
             if nxt is None:
                 # Falling through into a group of tied handlers is ambiguous
                 def fallthrough(*_, _err=self.key_error(obj_t_tup, group), **__):
-                    raise _err
+                    raise fresh_error(_err)
             else:
                 fallthrough = nxt
 
@@ -435,7 +435,7 @@ class MultiTypeMap(dict):
             if obj_t_tup[0] not in self.all[real_tup]:
                 return self[real_tup]
             elif obj_t_tup in self.errors:
-                raise self.errors[obj_t_tup]
+                raise fresh_error(self.errors[obj_t_tup])
             elif obj_t_tup in self:  # pragma: no cover
                 # PROBABLY not reachable
                 return self[obj_t_tup]
@@ -444,6 +444,6 @@ class MultiTypeMap(dict):
 
         self.resolve(obj_t_tup)
         if obj_t_tup in self.errors:
-            raise self.errors[obj_t_tup]
+            raise fresh_error(self.errors[obj_t_tup])
         else:
             return self[obj_t_tup]
